@@ -18,6 +18,11 @@ LEVEL_NOTE = 'Trusts: Lean kernel; correspondence sampling; error kinds observed
 TECHNIQUE = 'Lean 4 closed-form specification theorem (+ composition with C13) + differential correspondence on get_field results'
 
 
+
+# vertical composition (Props/Vertical): C01 + C07 + C12/C13 - the value get_field returns under a name is the value the source semantics gives that variable
+THEOREMS = THEOREMS + ['Portus.Vertical.reported_values_reach_the_decoder', 'Portus.Vertical.flow_reads_value_by_name']
+AUDIT_IMPORTS = list(globals().get('AUDIT_IMPORTS', [])) + ['PortusModel.Props.Vertical']
+
 def project(c, r):
     if c.cmd == "UID":
         return r
